@@ -542,15 +542,22 @@ def gen_case_flat(rng, tier, cond_only=False):
     ops = ['==', '!='] if inner_field == 'groups' else OPS        # (a tuple and an int cannot be ordered: Python raises)
     sel = rng.choice([[['var', 1], flat], [flat, ['var', 1]], [flat], [['var', 1], flat]])
     r = rng.random()
-    if r < 0.3:
+
+    def parent_cond():
+        # any condition tree over the parent variable alone (C16_unnest_where)
+        g = Gen(rng, 1, maxdepth=2, neg=True)
+        return g.cond(rng.randint(0, 2))
+    if r < 0.2:
         cond = None
+    elif r < 0.3:
+        cond = parent_cond()
     elif r < 0.52:
         cond = ['cmp', rng.choice(ops), flat, ['lit', rng.choice(INT_ALPHA)]]
     elif r < 0.65:
         cond = ['cmp', rng.choice(ops), flat, ['map', ['f', F[rng.choice('ab')]], ['var', 1]]]
     elif r < 0.75:
-        cond = ['and', ['cmp', rng.choice(OPS), ['map', ['f', F['a']], ['var', 1]], ['lit', rng.choice(INT_ALPHA)]],
-                ['cmp', rng.choice(ops), flat, ['lit', rng.choice(INT_ALPHA)]], 'fn']
+        first = ['cmp', rng.choice(OPS), ['map', ['f', F['a']], ['var', 1]], ['lit', rng.choice(INT_ALPHA)]] if rng.random() < 0.5 else parent_cond()
+        cond = ['and', first, ['cmp', rng.choice(ops), flat, ['lit', rng.choice(INT_ALPHA)]], 'fn']
     elif r < 0.88:
         cond = ['or', ['cmp', rng.choice(ops), flat, ['lit', rng.choice(INT_ALPHA)]],
                 ['cmp', '==', flat, ['map', ['f', F['b']], ['var', 1]]], 'fn']
